@@ -150,7 +150,31 @@ def advWhile (p : UInt8 → Bool) (z : Z) : Z := advWhileF p z.after.length z
 /-- `l.skipSpaces()` -/
 def skipSpaces (z : Z) : Z := advWhile (· == 0x20) z
 
+/-- `if l.pos < len(l.input) && p(l.peek()) { l.advance() }` -/
+def advIf (p : UInt8 → Bool) (z : Z) : Z :=
+  match z.after with
+  | [] => z
+  | c :: _ => if p c then advance z else z
+
 /-! ### look-ahead / look-behind predicates (pure) -/
+
+/-- `i < len(l.input) && l.isDigit(l.input[i])` for the first byte of `a = l.input[i:]` -/
+def headIsDigit : Bytes → Bool
+  | [] => false
+  | d :: _ => isDigit d
+
+/-- `i < len(l.input) && l.input[i] == c` for the first byte of `a = l.input[i:]` -/
+def headIs (c : UInt8) : Bytes → Bool
+  | [] => false
+  | x :: _ => x == c
+
+@[inline] def isSign (c : UInt8) : Bool := c == 0x2B || c == 0x2D
+
+/-- exponent look-ahead of `scanNumber` on `l.input[l.pos+1:]`: `nextPos` steps over one sign,
+    then a digit must follow. -/
+def expAhead : Bytes → Bool
+  | [] => false
+  | s :: r2 => if isSign s then headIsDigit r2 else isDigit s
 
 /-- `l.looksLikeAccount()` on `l.input[l.pos:]`. -/
 def looksLikeAccountF : Nat → Bytes → Bool → Bool
@@ -160,9 +184,7 @@ def looksLikeAccountF : Nat → Bytes → Bool → Bool
     let (r, size) := decodeRune (b :: t)
     if r == 0x3A then looksLikeAccountF n ((b :: t).drop size) true
     else if r == 0x20 then
-      (match t with
-       | c :: _ => if c == 0x20 then hasColon else looksLikeAccountF n ((b :: t).drop size) hasColon
-       | [] => looksLikeAccountF n ((b :: t).drop size) hasColon)
+      if headIs 0x20 t then hasColon else looksLikeAccountF n ((b :: t).drop size) hasColon
     else if isAccountTerminator r then hasColon
     else looksLikeAccountF n ((b :: t).drop size) hasColon
 def looksLikeAccount (a : Bytes) : Bool := looksLikeAccountF a.length a false
@@ -218,16 +240,12 @@ def nextIsCurrencySymbol (a : Bytes) : Bool :=
   | [] => false
   | b :: t => isCurrencySymbol (decodeRune (b :: t)).1
 
-def nextIsDigit (a : Bytes) : Bool :=
-  match a.drop 1 with
-  | [] => false
-  | b :: _ => isDigit b
+def nextIsDigit (a : Bytes) : Bool := headIsDigit (a.drop 1)
 
 /-- tail of `nextIsLetterCommodity` / `scanCommodityOrText`: a digit, or a sign followed by a digit. -/
 def digitOrSignedDigit : Bytes → Bool
   | [] => false
-  | ch :: r =>
-    isDigit ch || ((ch == 0x2D || ch == 0x2B) && (match r with | d :: _ => isDigit d | [] => false))
+  | ch :: r => isDigit ch || ((ch == 0x2D || ch == 0x2B) && headIsDigit r)
 
 def nextIsLetterCommodity (a : Bytes) : Bool :=
   match a.drop 1 with
@@ -257,9 +275,7 @@ def scanStatus (z : Z) : Token × Z :=
 def scanCode (z : Z) : Token × Z :=
   let z1 := advance z
   let z2 := advWhile (fun c => c != 0x29 && c != 0x0A) z1
-  let e := match z2.after with
-    | c :: _ => if c == 0x29 then advance z2 else z2
-    | [] => z2
+  let e := advIf (· == 0x29) z2
   mkTok .code (between z1 z2) z e
 
 def scanComment (z : Z) : Token × Z :=
@@ -284,9 +300,7 @@ def scanAccountF : Nat → Z → Z → Z × Z
     | b :: t =>
       let (r, size) := decodeRune (b :: t)
       if r == 0x20 then
-        (match t with
-         | c :: _ => if c == 0x20 then (z, l) else scanAccountF n (z.bump size) l
-         | [] => scanAccountF n (z.bump size) l)
+        if headIs 0x20 t then (z, l) else scanAccountF n (z.bump size) l
       else if isAccountTerminator r then (z, l)
       else scanAccountF n (z.bump size) (z.bump size)
 
@@ -303,20 +317,9 @@ def scanNumberF : Nat → Z → Bool → Z
     | ch :: rest =>
       if isDigit ch then scanNumberF n (advance z) true
       else if ch == 0x2E || ch == 0x2C then scanNumberF n (advance z) hasDigits
-      else if ch == 0x20 && (match rest with | d :: _ => isDigit d | [] => false) then
-        scanNumberF n (advance z) hasDigits
+      else if ch == 0x20 && headIsDigit rest then scanNumberF n (advance z) hasDigits
       else if (ch == 0x45 || ch == 0x65) && hasDigits then
-        -- nextPos := pos+1, stepping over one sign
-        let rest2 := match rest with
-          | s :: r2 => if s == 0x2B || s == 0x2D then r2 else rest
-          | [] => rest
-        if (match rest2 with | d :: _ => isDigit d | [] => false) then
-          let z1 := advance z
-          let z2 := match z1.after with
-            | s :: _ => if s == 0x2B || s == 0x2D then advance z1 else z1
-            | [] => z1
-          scanNumberF n z2 hasDigits
-        else z
+        if expAhead rest then scanNumberF n (advIf isSign (advance z)) hasDigits else z
       else z
 
 def scanNumber (z : Z) : Token × Z :=
@@ -330,22 +333,16 @@ def scanCurrencySymbol (z : Z) : Token × Z :=
 def scanQuotedCommodity (z : Z) : Token × Z :=
   let z1 := advance z
   let z2 := advWhile (fun c => c != 0x22 && c != 0x0A) z1
-  let e := match z2.after with
-    | c :: _ => if c == 0x22 then advance z2 else z2
-    | [] => z2
+  let e := advIf (· == 0x22) z2
   mkTok .commodity (between z1 z2) z e
 
 def scanAt (z : Z) : Token × Z :=
   let z1 := advance z
-  match z1.after with
-  | c :: _ => if c == 0x40 then mkTok .atAt [0x40, 0x40] z (advance z1) else mkTok .at [0x40] z z1
-  | [] => mkTok .at [0x40] z z1
+  if headIs 0x40 z1.after then mkTok .atAt [0x40, 0x40] z (advance z1) else mkTok .at [0x40] z z1
 
 def scanEquals (z : Z) : Token × Z :=
   let z1 := advance z
-  match z1.after with
-  | c :: _ => if c == 0x3D then mkTok .doubleEquals [0x3D, 0x3D] z (advance z1) else mkTok .equals [0x3D] z z1
-  | [] => mkTok .equals [0x3D] z z1
+  if headIs 0x3D z1.after then mkTok .doubleEquals [0x3D, 0x3D] z (advance z1) else mkTok .equals [0x3D] z z1
 
 def scanSign (z : Z) : Token × Z :=
   mkTok .sign (encodeRune (peek z).toNat) z (advance z)
